@@ -118,6 +118,21 @@ def values_params():
                 out['getstate'] = 'GSWhitelist'
         elif 'vars(self)' in ast.unparse(gs) or '__dict__' in ast.unparse(gs):
             out['getstate'] = 'GSVars'
+    # where does _task_post_init compute the cache key relative to the user's post_init?
+    out['keymode'] = 'KeyUnknown'
+    pi = _find(tasks, '_task_post_init')
+    if pi is not None:
+        key_stmt = "object.__setattr__(self, 'cache_key', self._lt.cache.cache_key(self))"
+        top = [ast.unparse(n) for n in pi.body]
+        ifs = [n for n in pi.body if isinstance(n, ast.If) and ast.unparse(n.test) == 'self._lt.orig_post_init is not None']
+        if len(ifs) == 1 and isinstance(pi.body[-1], ast.If) and pi.body[-1] is ifs[0]:
+            inner = [ast.unparse(n) for n in ifs[0].body]
+            calls = [i for i, x in enumerate(inner) if x == 'self._lt.orig_post_init(self)']
+            keys_after = [i for i, x in enumerate(inner) if x == key_stmt]
+            if len(calls) == 1 and keys_after and min(keys_after) > calls[0] and not ifs[0].orelse:
+                out['keymode'] = 'KeyAfterPostInit'        # (a first computation before post_init, if any, is overwritten)
+            elif len(calls) == 1 and not keys_after and key_stmt in top:
+                out['keymode'] = 'KeyBeforePostInit'
     fn = _find(tasks, '_task__setstate__')
     if fn is not None:
         d = _dump(fn)
@@ -373,6 +388,7 @@ def render():
     vp = values_params()
     lines += ['Definition deser_mode_src : deser_mode := %(deser)s.' % vp,
               'Definition setstate_mode_src : setstate_mode := %(setstate)s.' % vp,
+              'Definition key_mode_src : key_mode := %(keymode)s.' % vp,
               'Definition getstate_mode_src : getstate_mode := %(getstate)s.' % vp]
     ipar = intr_params()
     lines += ['Definition gen_mode_src : gen_mode := %(gen)s.' % ipar,
